@@ -255,6 +255,10 @@ class Base(common.Harness):
             self.check(f"C17:{self.part}:metadata_inside_full_span", self.provenance(c, f0, f1, fields), self.witness),
             self.check(f"C18:{self.part}:numeric_year_in_range_and_equals_text", self.year_clause(c), self.witness),
         ]
+        par = getattr(c.metadata, "parenthetical", None)
+        if isinstance(par, TStr) and self.part in ("post", "law", "journal"):
+            # C01: "its full span ... covers the written citation up to its closing parenthesis"
+            fs.append(self.check(f"C01:{self.part}:full_span_covers_the_closing_parenthesis_of_its_parenthetical", f1 >= par.single()[1] + 1, self.witness))
         pin = getattr(c.metadata, "pin_cite", None)
         if isinstance(pin, TStr) and self.part not in ("law", "journal"):
             # law and journal citations record a pin cite but no pin-cite span ("for that kind of citation")
@@ -782,6 +786,9 @@ def oracle_text(text, tokenizer=None):
         pl = getattr(c.metadata, "plaintiff", None)
         if pl and c.full_span_start is not None and not text[f0:].startswith(pl):
             bad.append("C01:full_span_starts_at_extracted_plaintiff")
+        par = getattr(c.metadata, "parenthetical", None)
+        if isinstance(par, str) and par and isinstance(c, M.FullCitation) and (par + ")") not in text[f0:f1]:
+            bad.append("C01:full_span_covers_the_closing_parenthesis_of_its_parenthetical")
         if not (p0 <= s0 and s1 <= p1 and 0 <= p0 and p1 <= n):
             bad.append("C02:pincite_span_contains_span")
         pin = getattr(c.metadata, "pin_cite", None)
